@@ -83,6 +83,11 @@ def parse_certificate(wire) -> CertificateV2Value:
     return CertificateV2Value.parse(wire)
 
 
+def _fmt_time(t: datetime) -> bytes:
+    # YYYYMMDDThhmmss, 15 octets: strftime('%Y') does not pad years below 1000
+    return ('%04d' % t.year + t.strftime('%m%dT%H%M%S')).encode()
+
+
 def new_cert(key_name, issuer_id_component, pub_key, signer, start_time, end_time) -> tuple[FormalName, VarBinaryStr]:
     cert_val = CertificateV2Value()
     cert_name = Name.normalize(key_name) + [issuer_id_component, Component.from_version(timestamp())]
@@ -97,9 +102,9 @@ def new_cert(key_name, issuer_id_component, pub_key, signer, start_time, end_tim
     if end_time.utcoffset() is not None:
         end_time = end_time.astimezone(UTC)
     cur_time = start_time
-    not_before = cur_time.strftime('%Y%m%dT%H%M%S').encode()
+    not_before = _fmt_time(cur_time)
     cert_val.signature_info.validity_period.not_before = not_before
-    not_after = end_time.strftime('%Y%m%dT%H%M%S').encode()
+    not_after = _fmt_time(end_time)
     cert_val.signature_info.validity_period.not_after = not_after
 
     markers = {}
